@@ -196,6 +196,7 @@ type incarnation struct {
 	started   atomic.Bool
 	startErr  error
 	termed    bool
+	ungated   atomic.Bool // locator-flusher writes are no longer held back (incarnation crashed or being stopped)
 }
 
 func (inc *incarnation) alive() bool { return !inc.dead.Load() }
@@ -282,6 +283,7 @@ type sim struct {
 	wake              chan struct{}
 	lockReqs          []*lockReq
 	deferred          []*deferredCall          // block-manager requests of the engines not started yet (bmwrap.go)
+	flushGate         []*flushWaiter           // locator-flusher goroutines held in a database write (db.go)
 	fsLast            map[[2]int]time.Duration // delivery time of the last fast-sync message per (src, dst): ordered stream
 	polkaSplit        map[string]int           // "height/round" -> bitmask of destinations starved of prevotes (0: none)
 	laggard           *node                    // fastsync profile: the validator that boots late (set when it boots)
@@ -616,6 +618,7 @@ func (s *sim) crashNow(inc *incarnation, site int) {
 	if !inc.dead.CompareAndSwap(false, true) {
 		return
 	}
+	defer s.releaseFlusherOf(inc)
 	n := inc.node
 	dst := filepath.Join(s.rc.Scratch, fmt.Sprintf("n%d-i%d-wal", n.idx, inc.n+1))
 	img := &crashImage{site: site, inc: inc}
@@ -780,6 +783,7 @@ func (s *sim) termIncarnation(inc *incarnation) {
 		return
 	}
 	inc.termed = true
+	s.releaseFlusherOf(inc)
 	go func() {
 		if inc.cs != nil {
 			inc.cs.Term()
